@@ -387,6 +387,10 @@ class Reshape(ArrayExpr):
                 new_out_shape.append(stop - start)
 
         new_out_shape = tuple(new_out_shape)
+        if not new_out_shape:
+            # every output axis was indexed away: there is no axis left to plan
+            # a reshape over (reshape_rechunk walks the axes of both shapes)
+            return None
 
         # Apply slice to input, then reshape
         sliced_input = new_collection(self.array)[tuple(input_index)]
